@@ -337,6 +337,14 @@ class HMat:
         """Sub-blocks of an abstract matrix are only shapes (their entries are not modelled)."""
         t = idx if isinstance(idx, tuple) else (idx,)
         t = t + (slice(None),) * (2 - len(t))
+        if HMat.column_atoms and len(t) == 2 and isinstance(t[0], slice) and t[0] == slice(None) and not isinstance(t[1], slice):
+            from .sym import SInt as _SI2
+            if isinstance(t[1], (int, _SI2)):
+                e = Atom(f"e[{_SI2.lift(t[1])}]", self.p.cols, 1, "gen", alg="H")
+                out = HMat(self.p @ NC.atom(e))
+                out.column_index = t[1]
+                out.one_dim = True
+                return out
         if HMat.column_atoms and len(t) == 2 and isinstance(t[0], slice) and t[0] == slice(None) and isinstance(t[1], slice) and t[1].step is None:
             j, j1 = t[1].start, t[1].stop
             from .sym import SInt as _SI
